@@ -17,6 +17,8 @@ func init() {
 			a.pickKeysTable()
 			a.retireOrder("S.retire-order")
 			a.c04Split("P.nul-split")
+			a.textIdentity("K.text-identity")
+			a.counterRecordLookup("P.counter")
 			a.acceptPathErrorTable("P.accept-errors")
 			a.c10Text("K.text")
 			a.narrowings("U.narrow", false)
